@@ -7,6 +7,7 @@
 (*        returned, exc = "none" or the exception type                     *)
 (*   [id, kind |-> "pure", same]   the same call sequence on a second      *)
 (*        instance (used while a third one is busy) gave the same writer   *)
+(*   [id, kind |-> "fresh", s, mw]   the state of a newly made writer      *)
 (* Total: every record gets exactly one VERDICT line naming the first      *)
 (* statement of WriterOps.tla that the real post-state breaks (or "ok";    *)
 (* "drift" = the code differs from the model where nothing is promised).   *)
@@ -62,6 +63,7 @@ J(S, c, R, E, ret, exc) ==
 
 Judge(x) ==
   IF x.kind = "pure" THEN (IF x.same THEN V("ok", "exact", "pure") ELSE V("X02.pure", "instances_differ", "pure"))
+  ELSE IF x.kind = "fresh" THEN (IF x.s = ExtState(New(x.mw)) THEN V("ok", "exact", "pure") ELSE V("X02.pure", "new_writer_not_empty", "pure"))
   ELSE Then(IntState(x.s), LAMBDA S : Then(IntCall(x.c), LAMBDA c : Then(IntState(x.r), LAMBDA R :
          Then(Apply(c, S), LAMBDA E : J(S, c, R, E, T(x.ret), x.exc)))))
 
@@ -70,6 +72,6 @@ Fin == /\ ~done /\ done' = TRUE /\ UNCHANGED tid
        /\ LET x == Traces[tid] IN
           \A v \in {Judge(x)} :
             PrintT("VERDICT " \o ToJson([id |-> x.id, clause |-> v.clause, fam |-> v.fam,
-                                         locus |-> [op |-> IF x.kind = "pure" THEN "sequence" ELSE x.c.op, kind |-> v.kind]]))
+                                         locus |-> [op |-> IF x.kind = "step" THEN x.c.op ELSE "sequence", kind |-> v.kind]]))
 Spec == Init /\ [][Fin]_<<tid, done>>
 =============================================================================
